@@ -490,12 +490,27 @@ Proof.
   - intros [H|H]; [now left|right; now apply IH].
 Qed.
 
+Lemma forall2b_map_r : forall {A C} (f : A -> C -> bool) (h : A -> C) (l : list A),
+  (forall x, In x l -> f x (h x) = true) -> forall2b f l (map h l) = true.
+Proof.
+  intros A C f h l. induction l as [|x l IH]; intro H; [reflexivity|].
+  cbn. rewrite (H x (or_introl eq_refl)). cbn. apply IH. intros y Hy. apply H. now right.
+Qed.
+
+Lemma handle_req_preserved_e : forall d e,
+  wf_req (rq e) = true -> req_preserved_e e (h_req false d e) = true.
+Proof.
+  intros d e Hwf. unfold req_preserved_e. destruct (rd e); [now apply handle_req_preserved|].
+  replace (with_body (h_req false d e) (rbody (rq e))) with (h_req false d e); [now apply handle_req_preserved|].
+  reflexivity.
+Qed.
+
 Lemma run_req_ok : forall es,
   (forall e, In e es -> wf_req (rq e) = true) -> c01_req_ok es (run es) = true.
 Proof.
   intros es Hwf. unfold c01_req_ok, run.
   destruct (conn_run_structure false id_body es) as (H1 & _ & _). rewrite H1.
-  apply forall2b_map_l. intros e He. apply handle_req_preserved. apply Hwf. now apply served_incl.
+  apply forall2b_map_r. intros e He. apply handle_req_preserved_e. apply Hwf. now apply served_incl.
 Qed.
 
 Lemma run_res_ok : forall es, c01_res_ok es (run es) = true.
@@ -559,6 +574,14 @@ Definition res_preserved (r : respmsg) (c : wire_res) : Prop :=
   c_body c = sbody r /\
   c_complete c = true.
 
+(* the same for an exchange: the body is demanded only of an origin that read it *)
+Definition req_preserved_x (e : exchange) (w : wire_req) : Prop :=
+  w_meth w = meth (rq e) /\
+  w_uri w = norm_pq (path_query (rq e)) /\
+  (forall n, In n (names_of (rhdrs (rq e))) -> e2e_name (nominated (rhdrs (rq e))) n = true ->
+     vals n (w_hdrs w) = if name_eqb n (s "host") then spec_host (rq e) else vals n (rhdrs (rq e))) /\
+  (rd e = ReadAll -> w_body w = rbody (rq e)).
+
 Lemma req_preserved_b_iff : forall r w, req_preserved_b r w = true <-> req_preserved r w.
 Proof.
   intros r w. unfold req_preserved_b, req_preserved. rewrite !andb_true_iff, !str_eqb_eq, body_eqb_eq.
@@ -591,8 +614,26 @@ Proof.
   - inversion X; subst. apply andb_true_iff. split; [now apply H|now apply IH].
 Qed.
 
+Lemma req_preserved_e_iff : forall e w, req_preserved_e e w = true <-> req_preserved_x e w.
+Proof.
+  intros e w. unfold req_preserved_e, req_preserved_x. destruct (rd e).
+  - rewrite req_preserved_b_iff. unfold req_preserved. intuition congruence.
+  - rewrite req_preserved_b_iff. unfold req_preserved, with_body. cbn [w_meth w_uri w_hdrs w_body].
+    intuition congruence.
+Qed.
+
+(* the origin's reading behaviour is invisible in what the proxy does *)
+Lemma conn_run_rd_irrelevant : forall c d (f : exchange -> readmode) es,
+  conn_run c d (map (fun e => mkEx (rq e) (rs e) (f e)) es) = conn_run c d es.
+Proof.
+  intros c d f es. induction es as [|e es IH]; [reflexivity|].
+  cbn [map conn_run].
+  assert (H : handle_model c d (mkEx (rq e) (rs e) (f e)) = handle_model c d e) by (destruct e; reflexivity).
+  rewrite H, IH. reflexivity.
+Qed.
+
 Definition c01_holds (es : list exchange) (o : conn_obs) : Prop :=
-  Forall2 req_preserved (map rq (served es)) (origin_saw o) /\
+  Forall2 req_preserved_x (served es) (origin_saw o) /\
   Forall2 res_preserved (map resp_of (served es)) (client_got o) /\
   closed o = existsb wants_close es.
 
@@ -600,7 +641,7 @@ Lemma c01_ok_iff : forall es o, c01_ok es o = true <-> c01_holds es o.
 Proof.
   intros es o. unfold c01_ok, c01_holds, c01_req_ok, c01_res_ok, c01_close_ok.
   rewrite !andb_true_iff.
-  rewrite (forall2b_Forall2 _ _ req_preserved_b_iff), (forall2b_Forall2 _ _ res_preserved_b_iff).
+  rewrite (forall2b_Forall2 _ _ req_preserved_e_iff), (forall2b_Forall2 _ _ res_preserved_b_iff).
   rewrite eqb_true_iff. tauto.
 Qed.
 
@@ -622,7 +663,7 @@ Qed.
 
 Definition ex_get (hs : list header) (shs : list header) (f : framing) : exchange :=
   mkEx (mkReq (s "GET") OriginForm (s "/") false ((s "Host", s "ORIGIN") :: hs) (mkBody 0 0) RqNone)
-       (Resp (mkResp 200 false shs (mkBody 20 7) f)).
+       (Resp (mkResp 200 false shs (mkBody 20 7) f)) ReadAll.
 
 (* two User-Agent fields: the second value is lost *)
 Definition two_ua : list exchange :=
